@@ -132,7 +132,9 @@ def run(ctx):
                 continue
             for req, what in ((0, "root"), (1, "D"), (2, "D/pkg"), (4, "a file")):
                 conds.append(xh.Cond(f"annotate --recursive {what} flags=(submodules={f1},meson={f2})", "C03.py", "_rec", {"flags": [f1, f2, False], "requests": [req], "filenames": [0, 1, 9] if tier == "quick" else [0, 1, 9, 11, 16], "carve": carve}, timeout=tmo, twin="_rec_reach"))
+    conds.append(xh.Cond("VCSStrategyGit: the NUL-separated answers of git (ignored paths, submodule paths) are read back exactly, for names with blanks, non-ASCII, line feed, leading dash, directories", "C03.py", "_git", {}, timeout=tmo, twin="_git_reach"))
     ctx.functions_encoded = [
+        "reuse.vcs.VCSStrategyGit._find_all_ignored_files / _find_submodules / is_ignored / is_submodule (execute_command replaced by arbitrary listed answers)",
         "reuse.cli.annotate.all_paths + Project.all_files (recursive expansion over the same model)",
         "reuse.covered_files._IGNORE_FILE_PATTERNS / _IGNORE_DIR_PATTERNS / _IGNORE_MESON_PARENT_DIR_PATTERNS (compiled patterns -> z3)",
         "reuse.covered_files.is_path_ignored (symbolic kind, flags, VCS answers, subset)",
@@ -146,7 +148,7 @@ def run(ctx):
     }
     ctx.stubs = ["pathlib.Path replaced by a model (is_symlink/is_file/is_dir/stat/resolve)", "VCS strategy replaced by arbitrary answers (is_ignored, is_submodule)", "os.walk replaced by a top-down generator that honours in-place pruning"]
     ctx.outside = [
-        "Git's own answer: what `git ls-files --ignored`/check-ignore say for a given .gitignore is an external process, not encodable; decided here: given ANY answer of the VCS layer the selection is right",
+        "Git's own answer: what `git ls-files --ignored`/check-ignore say for a given .gitignore is an external process, not encodable; decided here: given ANY answer of the VCS layer the selection is right, and a listed answer of git is parsed back exactly",
         "trees deeper than two levels",
 
     ]
@@ -156,6 +158,8 @@ def run(ctx):
         if c.func == "_ign":
             key = "license-text-workaround" if ex["name"].startswith(("CAL-1.0", "SHL-2.1")) else f"decision:{ex['name']}:{ex['kind']}:{ex['subset']}"
             return key, f"is_path_ignored says {ex['got']} but the statement says {ex['expected']} for {ex}", {"harness": "C03.py::_ign", "explain": ex}
+        if c.func == "_git":
+            return f"git-answer:{ex.get('path')}", f"git's answer {ex.get('git_lists') or ex.get('gitmodules_lists')} is read back wrongly for {ex.get('path')!r}: {ex}", {"harness": "C03.py::_git", "explain": ex}
         if c.func == "_rec":
             return f"annotate-r:{ex['dir']}:{ex['requested']}", f"annotate -r {ex['requested']} expands to {ex['got']}, the covered files below it are {ex['expected']} ({ {k: v for k, v in ex.items() if k not in ('got', 'expected')} })", {"harness": "C03.py::_rec", "explain": ex}
         key = "license-text-workaround" if ex["file"].startswith(("CAL-1.0", "SHL-2.1")) else f"walk:{ex['dir']}:{ex['file']}:{ex['file_kind']}"
